@@ -152,14 +152,33 @@ def snapshot_routing_at_the_purge_boundary(ctx):
         if vs.has_field("NodeMeta", "id") and loop_early_exits(F, mb, bi)[0] == h and h is not None:
             pushes.append((bi, t))
     ctx.floor("C33-c", len(pushes), 1, "push of a peer id into the snapshot-target list inside the per-peer loop")
+    def role_of(sl):
+        return "next" if is_next(sl) else ("first" if is_first(sl) else None)
+
+    def holds(rels, a, ops, b):
+        """does a set of relations contain a REL b with REL in ops (either orientation)"""
+        FL = {"<": ">", "<=": ">=", ">": "<", ">=": "<=", "==": "==", "!=": "!="}
+        return any((x == a and y == b and r in ops) or (x == b and y == a and FL[r] in ops) for (x, r, y) in rels)
+
+    def snap_pred(c):
+        if cmp_rel(F, c, is_next, is_first) == "<":
+            return True
+        hr = helper_relations(F, c, role_of)     # `if Self::needs_snapshot(first, next)`: read the predicate helper
+        return bool(hr) and all(holds(rs, "next", ("<",), "first") for rs in hr)
+
+    def append_pred(c):
+        if cmp_rel(F, c, is_next, is_first) in (">=", ">") or cmp_rel(F, c, is_first, is_one) in ("<=", "<", "=="):
+            return True
+        hr = helper_relations(F, c, role_of)
+        return bool(hr) and all(holds(rs, "next", (">=", ">"), "first") or holds(rs, "first", ("<=", "<", "=="), "const:1") for rs in hr)
     for (bi, t) in pushes:
-        ok, wit, _ = guarded_by(mb, bi, lambda c: cmp_rel(F, c, is_next, is_first) == "<", conds)
+        ok, wit, _ = guarded_by(mb, bi, snap_pred, conds)
         ctx.check("C33-c", "%s#snapshot-target#next<first_entry_id" % fkey(pb), ok, "a peer is routed to snapshot exactly under peer_next < first_entry_id()",
                   "the snapshot routing is not guarded by `peer_next < first_entry_id()` with the first retained index taken as is: a peer that needs the last purged entry "
                   "(next_index == first_entry_id() - 1) stays on the AppendEntries path - prev_log_term goes out as 0 and the batch starts one index late: endless conflict loop, "
                   "or (boundary 1) a follower that resets its log and runs with a hole", loc(mb, bi), wit and bpath(mb, wit))
     for n, (bi, t) in enumerate(builds):
-        ok, wit, _ = guarded_by(mb, bi, lambda c: cmp_rel(F, c, is_next, is_first) in (">=", ">") or cmp_rel(F, c, is_first, is_one) in ("<=", "<", "=="), conds)
+        ok, wit, _ = guarded_by(mb, bi, append_pred, conds)
         ctx.check("C33-c", "%s#build_append_request[%d]#next>=first_entry_id" % (fkey(pb), n), ok,
                   "AppendEntries is built only for peers whose next_index is still in the log (or nothing was purged)",
                   "an AppendEntries request can be built for a peer whose next_index is below first_entry_id(): the entries it needs are purged", loc(mb, bi), wit and bpath(mb, wit))
